@@ -270,12 +270,36 @@ func (x *Exec) atReturn(fr *Frame, c *Contract, entry, st *State, params, result
 			o.Clause = cl
 			o.Outputs = outs
 			// vacuity probe: the antecedent of an implication must be satisfiable at some return site
-			if cl.Expr.Op == "bin" && cl.Expr.Name == "==>" {
-				eca := x.evalCtxFor(c, st, entry, nil, params, sig, results, false)
-				ante := eca.Bool(cl.Expr.Args[0])
-				cv := &Obligation{Name: o.Name, Kind: "cover-ante", Func: x.key, Goal: tb.False(), x: x}
-				cv.Asserts = append(append([]*Term(nil), st.pc...), ante)
-				x.anteCovers = append(x.anteCovers, cv)
+			// (also implications that are conjuncts of the clause, or nested in the consequent of another one)
+			{
+				nprobe := 0
+				var walk func(e *Expr, outer []*Term)
+				walk = func(e *Expr, outer []*Term) {
+					if e == nil || e.Op != "bin" {
+						return
+					}
+					switch e.Name {
+					case "&&":
+						walk(e.Args[0], outer)
+						walk(e.Args[1], outer)
+					case "==>":
+						eca := x.evalCtxFor(c, st, entry, nil, params, sig, results, false)
+						var ante *Term
+						if err := x.guard("antecedent probe", func() { ante = eca.Bool(e.Args[0]) }); err != nil || ante == nil {
+							return
+						}
+						name := o.Name
+						if nprobe > 0 {
+							name = fmt.Sprintf("%s#antecedent%d(%s)", o.Name, nprobe, e.Args[0].String())
+						}
+						nprobe++
+						cv := &Obligation{Name: name, Kind: "cover-ante", Func: x.key, Goal: tb.False(), x: x}
+						cv.Asserts = append(append(append([]*Term(nil), st.pc...), outer...), ante)
+						x.anteCovers = append(x.anteCovers, cv)
+						walk(e.Args[1], append(append([]*Term(nil), outer...), ante))
+					}
+				}
+				walk(cl.Expr, nil)
 			}
 			o.Detail = fmt.Sprintf("return#%d", x.returns)
 			// later clauses may use earlier ones (each is proved separately, so the conjunction holds):
